@@ -420,6 +420,84 @@ theorem C04_decode_encode_partial {α : Type} (L : Layouts) (hL : L.WF = true) (
     exact List.prefix_append _ _
   exact C04_decode_regardless_of_trailing L dc hdc o r.bytes t m hpre hd hn
 
+/-! ### why `Layouts.WF` alone does not suffice (counterexamples), and non-vacuity -/
+
+/-- a well-formed family whose section 1 has 15 bits between the length field and the descriptors -/
+def C04ex.misaligned : Layouts := [
+  { index := 0, edition := 0, layout := { index := 0, params := [
+      { name := "start_signature", nbits := 32, ty := .bytes, expected := some [66, 85, 70, 82] },
+      { name := "length", nbits := 24, ty := .uint, asProperty := true },
+      { name := "edition", nbits := 8, ty := .uint, asProperty := true }] } },
+  { index := 1, edition := 0, layout := { index := 1, params := [
+      { name := "section_length", nbits := 24, ty := .uint },
+      { name := "x", nbits := 15, ty := .uint },
+      { name := "descs", nbits := 0, ty := .descriptors }] } },
+  { index := 2, edition := 0, layout := { index := 2, endOfMessage := true, params := [
+      { name := "stop_signature", nbits := 32, ty := .bytes, expected := some [55, 55, 55, 55] }] } }]
+
+/-- a well-formed family whose section 1 is one octet without a section length -/
+def C04ex.nolen : Layouts := [
+  { index := 0, edition := 0, layout := { index := 0, params := [
+      { name := "start_signature", nbits := 32, ty := .bytes, expected := some [66, 85, 70, 82] },
+      { name := "length", nbits := 24, ty := .uint, asProperty := true },
+      { name := "edition", nbits := 8, ty := .uint, asProperty := true }] } },
+  { index := 1, edition := 0, layout := { index := 1, params := [{ name := "x", nbits := 8, ty := .uint }] } },
+  { index := 2, edition := 0, layout := { index := 2, endOfMessage := true, params := [
+      { name := "stop_signature", nbits := 32, ty := .bytes, expected := some [55, 55, 55, 55] }] } }]
+
+/-- **`C04_decode_encode` is false for `Layouts.WF` alone (1).**  With 15 bits before the descriptors and
+    edition 3, one descriptor makes 55 bits, padded to 64 = 8 octets; the decoder computes
+    `(8 - 39 // 8) // 2 = 2` descriptors, reads 7 bits into the next section and reports the overrun
+    (`Err.lib`): the encoder's own output is refused. -/
+theorem C04_decode_encode_needs_aligned_descriptors :
+    C04ex.misaligned.WF = true ∧ RT.LayoutsOK C04ex.misaligned = false ∧
+    (match encode C04ex.misaligned {} [[.bytes startSig, .int 0, .int 3], [.int 0, .int 0, .descs [1001]], [.bytes stopSig]] [] with
+     | .ok r => (match decode C04ex.misaligned (rawCoder 0) {} r.bytes with | .error e => some e | .ok _ => none)
+     | .error _ => none) = some Err.lib := by
+  decide +kernel
+
+/-- **… (2).**  A one-octet section without a section length is padded to two octets by the encoder
+    (edition 3) and read as one octet by the decoder, which then finds `00 37 37 37` where it expects the
+    stop signature: decoding the encoder's own output fails. -/
+theorem C04_decode_encode_needs_unpadded_nolen :
+    C04ex.nolen.WF = true ∧ RT.LayoutsOK C04ex.nolen = false ∧
+    (match encode C04ex.nolen {} [[.bytes startSig, .int 0, .int 3], [.int 1], [.bytes stopSig]] [] with
+     | .ok r => (decode C04ex.nolen (rawCoder 0) {} r.bytes).toOption.isNone
+     | .error _ => false) = true := by
+  decide +kernel
+
+/-- values of the edition-3 example message -/
+def C04ex.vals : List (List PVal) := [[.bytes startSig, .int 0, .int 3],
+    [.int 0, .int 0, .int 0, .int 98, .int 0, .bool false, .bin (zeros 7), .int 2, .int 0, .int 29, .int 0,
+     .int 20, .int 1, .int 2, .int 3, .int 4, .int 5],
+    [.int 0, .bin (zeros 8), .int 1, .bool true, .bool false, .bin (zeros 6), .descs [31031, 31031, 31031, 31031, 31031]],
+    [.int 0, .bin (zeros 8), .data], [.bytes stopSig]]
+
+def C04ex.payload : Bits := [true, false, true, true, false]
+
+def C04ex.bytes : List UInt8 :=
+  [66, 85, 70, 82, 0, 0, 54, 3, 0, 0, 18, 0, 0, 98, 0, 0, 2, 0, 29, 0, 20, 1, 2, 3, 4, 5, 0, 0, 18, 0, 0, 1, 128,
+   31, 31, 31, 31, 31, 31, 31, 31, 31, 31, 0, 0, 0, 6, 0, 176, 0, 55, 55, 55, 55]
+
+theorem C04ex.encodes : encode Gen.layouts {} C04ex.vals C04ex.payload =
+    .ok { bytes := C04ex.bytes, trace := [(0, 64), (1, 144), (3, 144), (4, 48), (5, 32)] } := by decide +kernel
+
+/-- the values are valid for the layouts they are written with (five sections: 0, 1, 3, 4, 5) -/
+theorem C04ex.valid : ∀ v ∈ RT.encodeVisits Gen.layouts {} C04ex.vals C04ex.payload, RT.valsOK v.s.params v.vs = true := by
+  decide +kernel
+
+/-- non-vacuity of `C04_decode_encode`: every hypothesis holds for the example message and the raw data
+    coder, so whatever follows the 54 octets, they decode, are consumed exactly and reported as `serialized` -/
+example (t : List UInt8) : ∃ m, decode Gen.layouts (rawCoder 5) {} (C04ex.bytes ++ t) = .ok m ∧
+    m.serialized = C04ex.bytes ∧ m.nbits = 432 ∧ m.data = some C04ex.payload := by
+  obtain ⟨m, h1, h2, h3, _, h5⟩ := C04_decode_encode Gen.layouts C04_bundled_layouts_wf C04_bundled_layouts_rt {}
+    C04ex.vals C04ex.payload _ (rawCoder 5) C04ex.payload rfl C04ex.encodes C04ex.valid
+    (fun _ _ _ rD _ x => readBits_append_of_length 5 C04ex.payload x rfl) t
+  refine ⟨m, h1, h2, h3, ?_⟩
+  rw [h5]
+  have : RT.visitsHaveData (RT.encodeVisits Gen.layouts {} C04ex.vals C04ex.payload) = true := by decide +kernel
+  rw [this]; rfl
+
 /-- non-vacuity: the bundled family meets the hypothesis, and a concrete edition-3 message with a
     5-bit payload encodes (so the conclusions above speak about something) -/
 example : (encode Gen.layouts {} [[.bytes startSig, .int 0, .int 3],
